@@ -73,8 +73,18 @@ extern "C" {
 #define CUCKOO_MAPPED_TYPE int
 #include <libcuckoo-c/cuckoo_table_template.cc>
 
-// the guarded synchronisation hooks are compiled in (LIBCUCKOO_VERIF) but not used by this harness
-extern "C" void libcuckoo_verif_hook(int, const void *, unsigned long, unsigned long) {}
+// The guarded synchronisation hooks are used for one protocol rule that is decidable without a scheduler
+// (ConcInv.release_only_after_bump): once a table has published a new lock array (EMPLACE), no lock may be released
+// before the resize generation of that table is bumped (FA_RC) - on the normal path and on every exception path.
+#include <set>
+static std::set<const void *> g_unpublished;      // tables with a new lock array and no bump yet
+static std::string g_protocol_error;
+extern "C" void libcuckoo_verif_hook(int kind, const void *obj, unsigned long, unsigned long) {
+  if (kind == LIBCUCKOO_VH_EMPLACED) g_unpublished.insert(obj);
+  else if (kind == LIBCUCKOO_VH_FA_RC) g_unpublished.erase(obj);
+  else if (kind == LIBCUCKOO_VH_UNLOCK && !g_unpublished.empty() && g_protocol_error.empty())
+    g_protocol_error = "a lock is released after a new lock array was published and before the resize generation was bumped";
+}
 
 #ifdef LIBCUCKOO_VERIF_MAX_NUM_LOCKS
 static const uint64_t kHarnessMaxLocks = LIBCUCKOO_VERIF_MAX_NUM_LOCKS;
@@ -521,6 +531,7 @@ static void fault_child(int a, const std::vector<std::string> &tk, long k, long 
     if (escaped) verdict = "exception-crossed-C-boundary";
     else if (!failed_ret && res != UNM) verdict = "failure-not-reported";   // allocation failed but no ENOMEM+failure value
     else if (failed_ret && en != ENOMEM) verdict = "errno-not-ENOMEM";
+    else if (!g_protocol_error.empty()) verdict = "table-not-valid:" + std::string("lock-array-published-without-generation-bump");
     // contents must be unchanged after a reported failure
     for (int i = 0; i < NT && verdict == "ok"; ++i) {
       if (tk[1] == "c.read" || tk[1] == "c.init" || tk[1] == "new") break;
